@@ -24,6 +24,8 @@ import (
 //   inv             pushes InvalidEndpoint and InvalidFlow
 //   cmpe:i,j        ==, LessThan both ways, map insert/lookup
 //   cmpf:k,l        ==, map insert/lookup, FastHash equal
+//   pk:hex          decode hex eagerly from Ethernet (default options); push the link, network and
+//                   transport flows that are present
 //   lf:kind,hex     decode hex as a packet whose first layer is <kind> (lazy, no recovery) and
 //                   push the flow its link/network/transport layer reports
 type c17 struct{}
@@ -478,6 +480,27 @@ func (c17) Run(c Case) Result {
 			if rev && b != a.Reverse() {
 				fail("C17:reverse-swaps", "%s: %s is the reverse of %s but != Reverse()", op, c17F(b), c17F(a))
 			}
+		case "pk":
+			data := getb(0)
+			var fl [3]*gopacket.Flow
+			panicked := c17Recover(func() { fl = c17Stack(data) })
+			if panicked {
+				res.Obs = append(res.Obs, "cls=panic")
+				fail("C17:layer-flow-panics", "%s: decoding or a flow constructor panicked", op)
+				continue
+			}
+			o := "cls=ok"
+			for i, nm := range []string{"l", "n", "t"} {
+				if fl[i] == nil {
+					o += ";" + nm + "=-"
+				} else {
+					o += ";" + nm + "=" + c17F(*fl[i])
+					fls = append(fls, *fl[i])
+					tags["layer-flow"] = true
+				}
+			}
+			res.Obs = append(res.Obs, o)
+			c17StackOracle(op, data, fl, fail)
 		case "lf":
 			k := c17KindByName(args[0])
 			data := getb(1)
@@ -606,6 +629,186 @@ func c17LayerOracle(op string, k *c17Kind, data []byte, cls string, f gopacket.F
 			fail("C17:layer-addresses", "%s: PPP flow %s", op, c17F(f))
 		}
 	}
+}
+
+// c17Stack: flows of the link, network and transport layer of an eagerly decoded packet
+func c17Stack(data []byte) (fl [3]*gopacket.Flow) {
+	p := gopacket.NewPacket(data, layers.LayerTypeEthernet, gopacket.Default)
+	if l := p.LinkLayer(); l != nil {
+		f := l.LinkFlow()
+		fl[0] = &f
+	}
+	if l := p.NetworkLayer(); l != nil {
+		f := l.NetworkFlow()
+		fl[1] = &f
+	}
+	if l := p.TransportLayer(); l != nil {
+		f := l.TransportFlow()
+		fl[2] = &f
+	}
+	return
+}
+
+// offsets of the address fields of an Ethernet / IPv4|IPv6 / TCP|UDP|SCTP packet, as far as
+// they lie inside the data: {src, dst, width} per level, -1 when absent
+func c17StackFields(d []byte) (f [3][3]int) {
+	f = [3][3]int{{-1, -1, 0}, {-1, -1, 0}, {-1, -1, 0}}
+	if len(d) < 14 {
+		return
+	}
+	f[0] = [3]int{6, 0, 6}
+	et := binary.BigEndian.Uint16(d[12:14])
+	tr := -1
+	switch et {
+	case 0x0800:
+		if len(d) >= 34 {
+			f[1] = [3]int{26, 30, 4}
+			tr = 14 + int(d[14]&0xf)*4
+		}
+	case 0x86dd:
+		if len(d) >= 54 {
+			f[1] = [3]int{22, 38, 16}
+			tr = 54
+		}
+	}
+	if tr >= 34 && len(d) >= tr+4 {
+		f[2] = [3]int{tr, tr + 2, 2}
+	}
+	return
+}
+
+func c17StackReverse(d []byte) []byte {
+	out := append([]byte(nil), d...)
+	for _, f := range c17StackFields(d) {
+		if f[0] >= 0 {
+			copy(out[f[0]:f[0]+f[2]], d[f[1]:f[1]+f[2]])
+			copy(out[f[1]:f[1]+f[2]], d[f[0]:f[0]+f[2]])
+		}
+	}
+	return out
+}
+
+func c17StackOracle(op string, data []byte, fl [3]*gopacket.Flow, fail func(string, string, ...interface{})) {
+	fields := c17StackFields(data)
+	names := []string{"link", "network", "transport"}
+	if len(data) >= 14 && fl[0] == nil {
+		fail("C17:layer-addresses", "%s: no link layer for a %d byte Ethernet frame", op, len(data))
+	}
+	for i := 0; i < 3; i++ {
+		if fl[i] == nil {
+			continue
+		}
+		s, d := fl[i].Endpoints()
+		if len(s.Raw()) == 0 && len(d.Raw()) == 0 && i > 0 {
+			continue // layer object whose decoding failed before the addresses were assigned
+		}
+		f := fields[i]
+		if f[0] < 0 {
+			fail("C17:layer-addresses", "%s: %s flow %s but the header is not inside the data", op, names[i], c17F(*fl[i]))
+			continue
+		}
+		if !bytes.Equal(s.Raw(), data[f[0]:f[0]+f[2]]) || !bytes.Equal(d.Raw(), data[f[1]:f[1]+f[2]]) {
+			fail("C17:layer-addresses", "%s: %s flow %s, header has src %x dst %x", op, names[i], c17F(*fl[i]), data[f[0]:f[0]+f[2]], data[f[1]:f[1]+f[2]])
+		}
+	}
+	// the other direction of the same conversation
+	var fr [3]*gopacket.Flow
+	if c17Recover(func() { fr = c17Stack(c17StackReverse(data)) }) {
+		fail("C17:layer-flow-panics", "%s: reverse direction panicked", op)
+		return
+	}
+	for i := 0; i < 3; i++ {
+		if (fl[i] == nil) != (fr[i] == nil) {
+			fail("C17:layer-reverse", "%s: %s layer present in one direction only", op, names[i])
+			continue
+		}
+		if fl[i] == nil {
+			continue
+		}
+		if *fr[i] != fl[i].Reverse() {
+			fail("C17:layer-reverse", "%s: %s flow %s, other direction %s", op, names[i], c17F(*fl[i]), c17F(*fr[i]))
+		}
+		if fr[i].FastHash() != fl[i].FastHash() {
+			fail("C17:layer-hash", "%s: %s flows of the two directions hash %x and %x", op, names[i], fl[i].FastHash(), fr[i].FastHash())
+		}
+	}
+}
+
+// rewrite a packet so that it lies in the modelled scope (EtherType IPv4/IPv6, protocol
+// TCP/UDP/SCTP, no MPTCP option kind byte, no IPv6 extension headers)
+func c17PkScope(d []byte) []byte {
+	if len(d) < 14 {
+		return d
+	}
+	et := binary.BigEndian.Uint16(d[12:14])
+	if et != 0x0800 && et != 0x86dd {
+		binary.BigEndian.PutUint16(d[12:14], 0x0800)
+		et = 0x0800
+	}
+	pi, from := 23, 34
+	if et == 0x86dd {
+		pi, from = 20, 54
+	}
+	if len(d) > pi {
+		if d[pi] != 6 && d[pi] != 17 && d[pi] != 132 {
+			d[pi] = 17
+		}
+		if d[pi] == 6 {
+			for i := from; i < len(d); i++ {
+				if d[i] == 30 {
+					d[i] = 31
+				}
+			}
+		}
+	}
+	return d
+}
+
+func c17Packet(rng *rand.Rand) []byte {
+	tk := []string{"tcp", "udp", "sctp"}[rng.Intn(3)]
+	proto := map[string]byte{"tcp": 6, "udp": 17, "sctp": 132}[tk]
+	tr := c17Header(rng, tk)
+	var ip []byte
+	et := uint16(0x0800)
+	if rng.Intn(2) == 0 {
+		ip = c17Header(rng, "ip4")
+		hl := int(ip[0]&0xf) * 4
+		ip = ip[:hl]
+		ip[9] = proto
+		tot := hl + len(tr)
+		switch rng.Intn(8) {
+		case 0:
+			tot = 0 // TSO
+		case 1:
+			tot -= rng.Intn(len(tr) + 1) // trailing bytes beyond the IP length
+		case 2:
+			tot += 1 + rng.Intn(8) // truncated capture
+		case 3:
+			ip[6] |= 0x20 // more fragments
+		case 4:
+			ip[7] = byte(1 + rng.Intn(255)) // fragment offset
+		}
+		binary.BigEndian.PutUint16(ip[2:], uint16(tot))
+	} else {
+		et = 0x86dd
+		ip = c17Header(rng, "ip6")[:40]
+		ip[6] = proto
+		pl := len(tr)
+		switch rng.Intn(6) {
+		case 0:
+			pl = 0
+		case 1:
+			pl -= rng.Intn(len(tr) + 1)
+		case 2:
+			pl += 1 + rng.Intn(8)
+		}
+		binary.BigEndian.PutUint16(ip[4:], uint16(pl))
+	}
+	d := c17RandBytes(rng, 12)
+	d = append(d, byte(et>>8), byte(et))
+	d = append(d, ip...)
+	d = append(d, tr...)
+	return d
 }
 
 // ---------------------------------------------------------------- Gen
@@ -973,6 +1176,21 @@ func (c17) Gen(rng *rand.Rand, tier string) []Case {
 		for n := 0; n <= k.minHdr+1; n++ {
 			add(c17Lf(kind, c17Scope(kind, c17RandBytes(rng, n))))
 		}
+	}
+	// 7. whole packets Ethernet / IPv4|IPv6 / TCP|UDP|SCTP, both directions
+	for i := 0; i < 300*scale; i++ {
+		d := c17Packet(rng)
+		switch rng.Intn(5) {
+		case 0:
+			d = d[:rng.Intn(len(d)+1)]
+		case 1:
+			for x := 1 + rng.Intn(3); x > 0; x-- {
+				d[rng.Intn(len(d))] = []byte{0, 1, 0xff, 0x0f, 0xf0, byte(rng.Intn(256))}[rng.Intn(6)]
+			}
+		}
+		d = c17PkScope(d)
+		r := c17StackReverse(d)
+		add("pk:"+hex.EncodeToString(d), "pk:"+hex.EncodeToString(r), "rev:0", "rev:1", "rev:2", "cmpf:0,3", "cmpf:1,4", "cmpf:2,5", "eps:2", "eps:5", "cmpe:0,3", "cmpe:1,2")
 	}
 	// targeted: SLL address length wrap / beyond data, SLL2 beyond data
 	for _, al := range []int{65535, 65530, 65529, 100, 40, 11, 10, 9} {
